@@ -123,6 +123,9 @@ func (s *Scenario) PanicValue(id string) any {
 		return errors.New("panic-error(" + id + ")")
 	case "struct":
 		return panicStruct{A: len(id), B: id}
+	case "panicerror":
+		// the error of an inner directive, re-panicked by a must-style helper
+		return &cff.PanicError{Value: "inner(" + id + ")", Stacktrace: []byte("inner stack")}
 	}
 	return "panic(" + id + ")"
 }
